@@ -14,11 +14,13 @@ KANI_GROUPS = {
 # lane R: executable oracles of the same contracts, appended as #[cfg(test)] child modules
 REPLAY_GROUPS = {
     "estimator": dict(file="src/policy.rs", include="replay/estimator.rs"),
+    "ttl": dict(file="src/ttl.rs", include="replay/ttl.rs"),
+    "policy": dict(file="src/policy/sync.rs", include="replay/policy.rs"),
 }
 
 PROPS = {
-    "C01": dict(units=["u4_policy"], kani=[], replay=[]),
-    "C07": dict(units=["u4_policy", "u1_estimator"], kani=[], replay=[]),
+    "C01": dict(units=["u4_policy"], kani=[], replay=["policy"]),
+    "C07": dict(units=["u4_policy", "u1_estimator"], kani=[], replay=["policy", "estimator"]),
     "C13": dict(units=["u1_estimator"], kani=["bbloom"], replay=["estimator"]),
     "C14": dict(units=["u1_estimator"], kani=["bbloom"], replay=["estimator"]),
     "C20": dict(units=["u1_estimator"], kani=["bbloom"], replay=["estimator"]),
